@@ -42,8 +42,10 @@ var structNames = []string{"User", "Item", "Order", "Pet"}
 
 // GenOpts selects the family of world to generate.
 type GenOpts struct {
-	Reject string // "" for a well-formed world, else a rejected family
-	Rich   bool   // bias towards several imports / interfaces (C13)
+	Reject    string // "" for a well-formed world, else a rejected family
+	Rich      bool   // bias towards several imports / interfaces (C13)
+	SetupName string // force the setup file's name (e.g. "my.setup.go")
+	Nested    bool   // force a nested package directory
 }
 
 var RejectFamilies = []string{
@@ -146,12 +148,19 @@ func GenWorld(r *Rng, opts GenOpts, variantCount int) *WorldSpec {
 	if hooksPkg {
 		feat["imported-hook"] = true
 	}
+	// a blank import whose last path element equals the name of a regular
+	// import, with a notation that refers to that name (import-table pressure)
+	blankSameBase := opts.Rich && r.Chance(1, 2) || r.Chance(1, 6)
+	blankFirst := r.Bool()
 
 	// --- converter package
 	pkgName := Pick(r, []string{"conv", "converter", "c", "mapping"})
 	setupName := Pick(r, []string{"setup.go", "setup.go", "conv.go", "my.setup.go", "gen_setup.go"})
 	dir := "mod/" + pkgName
-	if r.Chance(1, 4) {
+	if opts.SetupName != "" {
+		setupName = opts.SetupName
+	}
+	if r.Chance(1, 4) || opts.Nested {
 		dir = "mod/internal/" + pkgName
 		feat["nested-dir"] = true
 	}
@@ -165,9 +174,15 @@ func GenWorld(r *Rng, opts GenOpts, variantCount int) *WorldSpec {
 		domAlias = Pick(r, []string{"d", "dom", "dm"})
 		feat["import-alias"] = true
 	}
-	if r.Chance(1, 3) {
+	if r.Chance(1, 3) && !blankSameBase {
 		modAlias = Pick(r, []string{"mx", "m", "mdl"})
 		feat["import-alias"] = true
+	}
+	if blankSameBase {
+		feat["blank-import-same-base"] = true
+		w.Files["mod/audit/model/model.go"] = "package model\n\n// ToLabel of the audit flavour can fail.\nfunc ToLabel(id int64) (string, error) {\n\treturn \"audit\", nil\n}\n"
+		w.Files["mod/model/label.go"] = "package model\n\ntype Tagged struct {\n\tID    int64\n\tLabel string\n}\n\nfunc ToLabel(id int64) string {\n\treturn \"label\"\n}\n"
+		w.Files["mod/domain/label.go"] = "package domain\n\ntype Tagged struct {\n\tID    int64\n\tLabel string\n}\n"
 	}
 
 	setupSeed := int64(r.Uint64())
@@ -437,6 +452,17 @@ func GenWorld(r *Rng, opts GenOpts, variantCount int) *WorldSpec {
 		}
 		// import order as the user wrote it: seeded, not sorted
 		Shuffle(vr, imports)
+		if blankSameBase {
+			blank := "\t_ \"example.com/w/audit/model\""
+			if blankFirst {
+				imports = append([]string{blank}, imports...)
+			} else {
+				imports = append(imports, blank)
+			}
+			gi := genIntf{name: "LabelConv", marked: true}
+			gi.methods = append(gi.methods, genMethod{name: "TagToModel", notations: []string{":conv model.ToLabel ID Label"}, sig: "TagToModel(*" + domAlias + ".Tagged) (*model.Tagged, error)"})
+			intfs = append(intfs, gi)
+		}
 		for _, s := range imports {
 			b.WriteString(s + "\n")
 		}
